@@ -1125,7 +1125,29 @@ def spsdk_parse(text, extern):
         parser = _REUSED["parser"]
     cfg = parser.parse(text, list(extern))
     variables = [(v.name, v.t, v.value) for v in parser._variables]
+    if parser is _REUSED["parser"]:
+        # what the long-lived parser handed out for the PREVIOUS program belongs to its caller: it must still read as it did
+        prev = _REUSED.get("prev")
+        if prev is not None and core.stable_hash(_plain(prev[0])) != prev[1]:
+            _REUSED["changed"] = {"earlier_program": prev[2][:300], "later_program": text[:300]}
+        _REUSED["prev"] = (cfg, core.stable_hash(_plain(cfg)), text)
     return cfg, variables
+
+
+def _plain(o):
+    if isinstance(o, dict):
+        return sorted((str(k), _plain(v)) for k, v in o.items())
+    if isinstance(o, (list, tuple)):
+        return [_plain(v) for v in o]
+    if isinstance(o, (bytes, bytearray)):
+        return bytes(o).hex()
+    return o if isinstance(o, (int, str, bool, type(None), float)) else repr(o)
+
+
+def check_reused_results(ctx):
+    ch = _REUSED.pop("changed", None)
+    if ch:
+        ctx.violation("bd-result-of-an-earlier-parse-changed-by-a-later-parse", ch)
 
 
 def spsdk_build(cfg, e):
@@ -1212,8 +1234,10 @@ def judge_program(ctx, text, extern, *, meta=None, count_programs=True):
     try:
         cfg, variables = spsdk_parse(text, extern)
     except Exception as ex:  # pylint: disable=broad-except
+        check_reused_results(ctx)
         _refused(ctx, sig_base, "parse", ex, count_programs)
         return "refused-parse"
+    check_reused_results(ctx)
     if cfg is None:
         ctx.refused(sig_base + ["parse"], "parse returned None")
         if count_programs:
